@@ -68,8 +68,9 @@ def c03(tier, seed):
 
 def c04(tier, seed):
     w = n(tier, 200, 3000)
-    runs = [dict(cfg=c, traces=w, preds=C04_PREDS) for c in ("p11", "prst", "pnat", "plife0", "plifeD0", "plifelite", "pclose")]
+    runs = [dict(cfg=c, traces=w, preds=C04_PREDS) for c in ("p11", "prst", "pnat", "plife0", "plifeD0", "plifelite", "pclose", "plifeK")]
     runs[1]["scheds"] = ["fc04_failed_then_connected"]
+    runs.append(dict(cfg="plife21", traces=n(tier, 100, 1500), preds=C04_PREDS, scheds=["c04_other_remote_keeps_talking"]))
     plan = {"runs": runs, "mc": [("plifemc", ["SelWhileConnected"], n(tier, {"MaxTicks": 2, "Steps": [2], "MaxTime": 6}, {"MaxTicks": 3, "Steps": [3], "MaxTime": 9}),
                    ["ReleasedOnFailed", "Lifecycle"]),
                   # a lite agent that keeps its default timeouts: disconnected timeout and checking deadline are different numbers
@@ -87,7 +88,7 @@ def c05(tier, seed):
     for c in ("prolenat", "prolenat0", "prolenatw", "prolenat0w"):   # the conflicting check arrives from a not yet signalled (peer-reflexive) source
         runs.append(dict(cfg=c, traces=w, drain=True, notime=True, zerowait=True, preds=C05_PREDS + ["C05_OppositeAtEnd", "C01_Mirror", "C01_Converges"]))
     # the rule applied in the middle of a session (valid pairs, outstanding nominations): requests with the receiver's own role from a peer that misbehaves
-    for c in ("pinjrole", "p21injrole"):
+    for c in ("pinjrole", "p21injrole", "pinjrolerst"):
         runs.append(dict(cfg=c, traces=w, preds=C05_PREDS))
     plan = {"runs": runs, "mc": [("prole", ["Mirror"], None), ("prole0", ["Mirror"], None)], "assumptions": SESSION_ASSUME}
     return session.run_property("C05", tier, seed, plan)
